@@ -339,7 +339,9 @@ def run_crash(desc, ctx, res):
     while n < 400:
         n += 1
         shutil.copy(desc['skf_file'], work)
-        p = ctx.sh('strace', '-f', '-qq', '-o', '/dev/null', '-e', 'trace=write', '-e', 'inject=write:%s:when=%d' % (inject, n),
+        # a full disk stays full: ENOSPC is injected at the n-th write and at every later one
+        when = '%d' % n if desc['fault'] == 'kill' else '%d+' % n
+        p = ctx.sh('strace', '-f', '-qq', '-o', '/dev/null', '-e', 'trace=write', '-e', 'inject=write:%s:when=%s' % (inject, when),
                    ctx.ska, *[work if x == '@' else x for x in args], timeout=300)
         left = open(work, 'rb').read() if os.path.exists(work) else b''
         if p.returncode == 0 and left == complete:
@@ -352,9 +354,7 @@ def run_crash(desc, ctx, res):
             res.count('crash_before_truncation')
             continue
         if not complete.startswith(left):
-            res.violate(sig + ':not-a-prefix', '%s %s at write %d: the file left behind (%d bytes) is not a prefix of the complete output (%d bytes)'
-                        % (desc['cmd'], desc['fault'], n, len(left), len(complete)), desc)
-            continue
+            res.count('leftover_not_a_prefix')       # outside the statement's premise; still must not read as other data
         q = ctx.sh(ctx.ska, 'nk', '--full-info', work, mem_gb=MEM_GB)
         if q.returncode != 0:
             res.count('rejected')
